@@ -2294,20 +2294,7 @@ impl Ord for Element {
 
         // sort by item name if present
         if let (Some(name1), Some(name2)) = (self.item_name(), other.item_name()) {
-            // both items have a name - try to decompose the name into a base and an index
-            // this allows for a more natural sorting of indexed items (e.g. "item2" < "item10")
-            if let (Some((base1, idx1)), Some((base2, idx2))) =
-                (decompose_item_name(&name1), decompose_item_name(&name2))
-            {
-                if base1 == base2 {
-                    let result = idx1.cmp(&idx2);
-                    if result != Ordering::Equal {
-                        return result;
-                    }
-                }
-            }
-            // if the decomposition fails, then just compare the full item names
-            let result = name1.cmp(&name2);
+            let result = compare_item_names(&name1, &name2);
             if result != Ordering::Equal {
                 return result;
             }
@@ -2362,6 +2349,27 @@ impl PartialOrd for Element {
     fn partial_cmp(&self, other: &Element) -> Option<std::cmp::Ordering> {
         Some(self.cmp(other))
     }
+}
+
+/// compare two item names
+///
+/// Each name is decomposed into a base and a trailing index, which allows for a more natural sorting of
+/// indexed items (e.g. "item2" < "item10"). Names are ordered by base, then by index (a name without an
+/// index comes first), and finally by the full name. Comparing the same key for every pair of names
+/// makes this a total order.
+fn compare_item_names(name1: &str, name2: &str) -> Ordering {
+    let (base1, idx1) = match decompose_item_name(name1) {
+        Some((base, idx)) => (base, Some(idx)),
+        None => (name1.to_owned(), None),
+    };
+    let (base2, idx2) = match decompose_item_name(name2) {
+        Some((base, idx)) => (base, Some(idx)),
+        None => (name2.to_owned(), None),
+    };
+    base1
+        .cmp(&base2)
+        .then(idx1.cmp(&idx2))
+        .then_with(|| name1.cmp(name2))
 }
 
 /// decompose an item name into a base name and an index
